@@ -10,8 +10,9 @@ import Edn.Model.Reader
 namespace Edn.Spec
 open Edn.Model
 
-/-- child range enclosed by the parent range -/
-def encloses (p c : Hdr) : Prop := c.synth = true ∨ (c.s ≤ p.s ∧ p.e ≤ c.e)
+/-- child range enclosed by the parent range (a synthesised parent, e.g. the merged metadata
+    map, has no span of its own and imposes nothing) -/
+def encloses (p c : Hdr) : Prop := p.synth = true ∨ c.synth = true ∨ (c.s ≤ p.s ∧ p.e ≤ c.e)
 
 /-- `y` was read after `x` and does not overlap it -/
 def before (x y : Val) : Prop := x.hdr.synth = true ∨ y.hdr.synth = true ∨ y.hdr.s ≤ x.hdr.e
